@@ -23,7 +23,11 @@ type c14 struct {
 	maxLive int
 }
 
-func (m *c14) Key() string  { return c14Key(&m.cm) }
+func (m *c14) Key() string { return c14Key(&m.cm) }
+
+// c14Scalars: every scalar field of the real registry, whatever it is called (see seqmc.Scalars).
+func c14Scalars(cm *connMatrix) string { return seqmc.Scalars(cm) }
+
 func (m *c14) Expand() bool { return true }
 
 func (m *c14) Ops() []seqmc.Op {
